@@ -62,7 +62,7 @@ for _name, _case in cases.CASES.items():
 
 # inputs that are set to exactly zero in the third design point (where the component declares them): 'engines off',
 # 'no rotation', 'no fuel', 'zero twist' ... are ordinary admissible values on which shortcuts tend to be keyed
-ZEROABLE = ("engine_thrusts", "point_masses", "omega", "fuel_mass", "twist", "xshear", "yshear", "zshear", "sweep", "dihedral", "beta", "rotational_velocities", "loads", "struct_weight_loads", "fuel_weight_loads", "loads_from_point_masses", "loads_from_thrusts", "CDw", "CL0")
+ZEROABLE = ("engine_thrusts", "point_masses", "omega", "fuel_mass", "twist", "xshear", "yshear", "zshear", "sweep", "dihedral", "beta", "rotational_velocities", "loads", "struct_weight_loads", "fuel_weight_loads", "loads_from_point_masses", "loads_from_thrusts", "CDw", "CL0", "sec_forces", "panel_forces", "circulations", "horseshoe_circulations", "disp", "mesh_point_forces", "forces", "alpha")
 
 _MODELS = {}
 
